@@ -132,13 +132,6 @@ theorem lookup_none_of_not_banned (s : State) (t : Int) (tg : Target) (k : Bytes
 def Clean (n : Net) (T : Int) : Prop :=
   ∀ p, p ∈ n.connected → ∀ k e r, keyOf p.target = some k → lookup n.store.recs k = some (e, r) → e * 1000 ≤ T
 
-/-- "one peer per host" on a set of peers: two peers whose addresses denote the
-same (supported) IP network are the same peer -/
-def OnePerHost (U : Peer → Prop) : Prop :=
-  ∀ p q, U p → U q → keyOf p.target = keyOf q.target → keyOf p.target ≠ none → p = q
-
-def InU (U : Peer → Prop) (n : Net) : Prop := ∀ p, p ∈ n.connected → U p
-
 theorem mem_without {l : List Peer} {p q : Peer} (h : q ∈ without l p) : q ∈ l ∧ q ≠ p := by
   simp only [without, List.mem_filter, decide_eq_true_eq] at h
   exact h
@@ -153,12 +146,44 @@ theorem clean_shrink {n n' : Net} {T t : Int} (h : Clean n T) (hT : T ≤ t)
   intro p hp k e r hk hl
   exact Int.le_trans (h p (hc p hp) k e r hk (hs k _ hl)) hT
 
-/-- `BanPeer`: the banned network's own peer is dropped; under one-peer-per-host nobody else shares the key -/
-theorem clean_banPeer {U : Peer → Prop} (hU : OnePerHost U) {n : Net} {T t : Int} (h : Clean n T) (hT : T ≤ t)
-    (hin : InU U n) (p : Peer) (hp : U p) (reason : Nat) : Clean (banPeer n t p reason) t := by
+theorem mem_afterBan {l : List Peer} {p q : Peer} (h : q ∈ afterBan l p) : q ∈ l ∧ q ≠ p := by
+  simp only [afterBan] at h
+  cases hr : resolve p.target with
+  | none => rw [hr] at h; exact mem_without h
+  | some bn => rw [hr] at h; exact mem_without (List.mem_filter.mp h).1
+
+theorem not_mem_afterBan (l : List Peer) (p : Peer) : p ∉ afterBan l p :=
+  fun h => (mem_afterBan h).2 rfl
+
+/-- a peer with the banned key does not survive `BanPeer` -/
+theorem not_mem_afterBan_of_key {l : List Peer} {p q : Peer} {k : Bytes}
+    (hp : keyOf p.target = some k) (hq : keyOf q.target = some k) : q ∉ afterBan l p := by
+  intro h
+  simp only [keyOf] at hp hq
+  cases hrp : resolve p.target with
+  | none => rw [hrp] at hp; exact absurd hp (by simp)
+  | some bn =>
+    cases hrq : resolve q.target with
+    | none => rw [hrq] at hq; exact absurd hq (by simp)
+    | some qn =>
+      obtain ⟨ipb, mb⟩ := bn
+      obtain ⟨ipq, mq⟩ := qn
+      rw [hrp] at hp; rw [hrq] at hq
+      simp only at hp hq
+      obtain ⟨h16, hsome, hm⟩ := encodeKey_inj hq hp
+      have hs : sameNet (ipq, mq) (ipb, mb) = true := by
+        have hsome' := hsome
+        rw [h16] at hsome'
+        simp only [sameNet, h16, hsome', hm, beq_self_eq_true, Bool.and_self]
+      simp only [afterBan, hrp, List.mem_filter, hrq, hs, Bool.not_true] at h
+      exact absurd h.2 (by simp)
+
+/-- `BanPeer`: every connected peer whose address has the banned key is dropped -/
+theorem clean_banPeer {n : Net} {T t : Int} (h : Clean n T) (hT : T ≤ t)
+    (p : Peer) (reason : Nat) : Clean (banPeer n t p reason) t := by
   intro q hq k e r hk hl
   simp only [banPeer] at hq hl
-  obtain ⟨hqc, hne⟩ := mem_without hq
+  have hqc := (mem_afterBan hq).1
   cases hkp : keyOf p.target with
   | none =>
     rw [step_ban_none _ _ _ _ _ hkp] at hl
@@ -166,17 +191,13 @@ theorem clean_banPeer {U : Peer → Prop} (hU : OnePerHost U) {n : Net} {T t : I
   | some k0 =>
     rw [step_ban_some _ _ _ _ _ k0 hkp] at hl
     by_cases hkk : k0 = k
-    · exfalso
-      apply hne
-      apply hU q p (hin q hqc) hp
-      · rw [hk, hkp, hkk]
-      · rw [hk]; simp
+    · subst hkk
+      exact absurd hq (not_mem_afterBan_of_key hkp hk)
     · rw [lookup_put_ne _ _ _ _ hkk] at hl
       exact Int.le_trans (h q hqc k e r hk hl) hT
 
-theorem clean_step {U : Peer → Prop} (hU : OnePerHost U) (n : Net) (T t : Int) (e : Ev)
-    (h : Clean n T) (hin : InU U n) (he : U e.peer) (hT : T ≤ t) :
-    Clean (stepNet n t e) t ∧ InU U (stepNet n t e) := by
+theorem clean_step (n : Net) (T t : Int) (e : Ev) (h : Clean n T) (hT : T ≤ t) :
+    Clean (stepNet n t e) t := by
   cases e with
   | outbound p =>
     have hst : (stepNet n t (.outbound p)).store = (step n.store t (.status p.target)).1 ∧
@@ -185,27 +206,21 @@ theorem clean_step {U : Peer → Prop} (hU : OnePerHost U) (n : Net) (T t : Int)
       split
       · exact ⟨isBanned_fst _ _ _, rfl⟩
       · split <;> exact ⟨isBanned_fst _ _ _, rfl⟩
-    constructor
-    · exact clean_shrink h hT (fun k v hl => lookup_after_status _ _ _ _ _ (by rw [← hst.1]; exact hl))
+    exact clean_shrink h hT (fun k v hl => lookup_after_status _ _ _ _ _ (by rw [← hst.1]; exact hl))
         (fun q hq => by rw [← hst.2]; exact hq)
-    · intro q hq; rw [hst.2] at hq; exact hin q hq
   | version p sv =>
     simp only [stepNet]
     by_cases hp : p ∈ n.pending
     · simp only [hp, ↓reduceIte]
       by_cases hr : hasRequired sv = true
       · simp only [hr, ↓reduceIte]
-        exact ⟨clean_shrink h hT (fun _ _ hl => hl) (fun _ hq => hq), hin⟩
+        exact clean_shrink h hT (fun _ _ hl => hl) (fun _ hq => hq)
       · simp only [hr]
-        constructor
-        · have hc := clean_banPeer hU h hT hin p he reasonNoCompactFilters
-          intro q hq k e r hk hl
-          exact hc q hq k e r hk hl
-        · intro q hq
-          simp only [banPeer] at hq
-          exact hin q (mem_without hq).1
+        have hc := clean_banPeer h hT p reasonNoCompactFilters
+        intro q hq k e r hk hl
+        exact hc q hq k e r hk hl
     · simp only [hp, ↓reduceIte]
-      exact ⟨clean_shrink h hT (fun _ _ hl => hl) (fun _ hq => hq), hin⟩
+      exact clean_shrink h hT (fun _ _ hl => hl) (fun _ hq => hq)
   | addPeer p =>
     simp only [stepNet]
     by_cases hp : p ∈ n.pending
@@ -214,7 +229,7 @@ theorem clean_step {U : Peer → Prop} (hU : OnePerHost U) (n : Net) (T t : Int)
         intro k v hl; rw [isBanned_fst] at hl; exact lookup_after_status _ _ _ _ _ hl
       by_cases hb : (isBanned n.store t p).2 = true
       · simp only [hb, ↓reduceIte]
-        exact ⟨clean_shrink h hT hshr (fun _ hq => hq), hin⟩
+        exact clean_shrink h hT hshr (fun _ hq => hq)
       · have hbf : (isBanned n.store t p).2 = false := by
           cases hv : (isBanned n.store t p).2 with
           | true => exact absurd hv hb
@@ -222,48 +237,37 @@ theorem clean_step {U : Peer → Prop} (hU : OnePerHost U) (n : Net) (T t : Int)
         simp only [hbf, Bool.false_eq_true, ↓reduceIte]
         by_cases hfull : n.connected.length ≥ n.maxPeers
         · simp only [hfull, ↓reduceIte]
-          exact ⟨clean_shrink h hT hshr (fun _ hq => hq), hin⟩
+          exact clean_shrink h hT hshr (fun _ hq => hq)
         · simp only [hfull, ↓reduceIte]
-          constructor
-          · intro q hq k e r hk hl
-            rw [isBanned_fst] at hl
-            cases List.mem_cons.mp hq with
-            | inl heq =>
-              subst heq
-              rw [lookup_none_of_not_banned _ _ _ k hk (isBanned_false _ _ _ hbf)] at hl
-              exact absurd hl (by simp)
-            | inr hqc =>
-              exact Int.le_trans (h q hqc k e r hk (lookup_after_status _ _ _ _ _ hl)) hT
-          · intro q hq
-            cases List.mem_cons.mp hq with
-            | inl heq => subst heq; exact he
-            | inr hqc => exact hin q hqc
+          intro q hq k e r hk hl
+          rw [isBanned_fst] at hl
+          cases List.mem_cons.mp hq with
+          | inl heq =>
+            subst heq
+            rw [lookup_none_of_not_banned _ _ _ k hk (isBanned_false _ _ _ hbf)] at hl
+            exact absurd hl (by simp)
+          | inr hqc =>
+            exact Int.le_trans (h q hqc k e r hk (lookup_after_status _ _ _ _ _ hl)) hT
     · simp only [hp, ↓reduceIte]
-      exact ⟨clean_shrink h hT (fun _ _ hl => hl) (fun _ hq => hq), hin⟩
+      exact clean_shrink h hT (fun _ _ hl => hl) (fun _ hq => hq)
   | banPeer p reason =>
     simp only [stepNet]
-    refine ⟨clean_banPeer hU h hT hin p he reason, ?_⟩
-    intro q hq
-    simp only [banPeer] at hq
-    exact hin q (mem_without hq).1
+    exact clean_banPeer h hT p reason
   | unbanPeer p =>
     simp only [stepNet]
-    exact ⟨clean_shrink h hT (fun k v hl => lookup_after_unban _ _ _ _ _ hl) (fun _ hq => hq), hin⟩
+    exact clean_shrink h hT (fun k v hl => lookup_after_unban _ _ _ _ _ hl) (fun _ hq => hq)
   | done p =>
     simp only [stepNet]
-    exact ⟨clean_shrink h hT (fun _ _ hl => hl) (fun q hq => (mem_without hq).1),
-           fun q hq => hin q (mem_without hq).1⟩
+    exact clean_shrink h hT (fun _ _ hl => hl) (fun q hq => (mem_without hq).1)
 
-theorem clean_run {U : Peer → Prop} (hU : OnePerHost U) (n : Net) (T : Int) (evs : EvHist)
-    (h : Clean n T) (hin : InU U n) (he : ∀ x, x ∈ evs → U x.2.peer) (hm : monoEv T evs) :
+theorem clean_run (n : Net) (T : Int) (evs : EvHist) (h : Clean n T) (hm : monoEv T evs) :
     Clean (runNet n evs) (endEv T evs) := by
   induction evs generalizing n T with
   | nil => exact h
   | cons x rest ih =>
     obtain ⟨t, e⟩ := x
     simp only [runNet, endEv]
-    obtain ⟨hc, hi⟩ := clean_step hU n T t e h hin (he (t, e) (List.mem_cons_self ..)) hm.1
-    exact ih _ _ hc hi (fun y hy => he y (List.mem_cons_of_mem _ hy)) hm.2
+    exact ih _ _ (clean_step n T t e h hm.1) hm.2
 
 /-- A clean connected peer is not banned. -/
 theorem not_banned_of_clean (n : Net) (T now : Int) (hT : T ≤ now) (h : Clean n T) (p : Peer) (hp : p ∈ n.connected) :
